@@ -298,6 +298,11 @@ class Check:
     def canary(self, name, rejected_as_expected):
         self.canaries.append({"name": name, "rejected": bool(rejected_as_expected)})
         if not rejected_as_expected:
+            if self.violations or self.known_hit:
+                # canaries derived from recorded behaviour can break when the code under test is broken:
+                # the violations already found stand; the canary failure is noted
+                self.notes.append("canary '%s' did not behave as required on this (violating) run" % name)
+                return
             raise Infra("canary '%s' was ACCEPTED: the check constrains nothing" % name)
 
     def sample(self, obj):
